@@ -566,3 +566,44 @@ Proof.
       pose proof (srow_mono_step cf (run cf (ops ++ more)) o s (seen_sticky_run cf ops more s Hs)).
       unfold srow_le in *. lia.
 Qed.
+
+(* ------------------------------------------------------------------ assembled statements and witnesses *)
+
+Lemma totals cf ops :
+  let t := run cf ops in
+  (forall c, c_xact (cl t c) = count (txn_of_client c) (trace cf ops) /\
+             c_query (cl t c) = count (qry_of_client c) (trace cf ops)) /\
+  (forall s, s_xact (sv t s) = count (txn_of_server s) (trace cf ops) /\
+             s_query (sv t s) = count (qry_of_server s) (trace cf ops)) /\
+  (forall a, a_xact (at_ t a) = srv_sum s_xact t a /\ a_query (at_ t a) = srv_sum s_query t a /\
+             a_sent (at_ t a) = srv_sum s_sent t a /\ a_recv (at_ t a) = srv_sum s_recv t a) /\
+  (cl_sum c_xact t = count is_txn (trace cf ops) /\ sv_sum s_xact t = count is_txn (trace cf ops) /\
+   cl_sum c_query t = count is_qry (trace cf ops) /\ sv_sum s_query t = count is_qry (trace cf ops)).
+Proof.
+  intros t. split; [intros c; apply client_counts|]. split; [intros s; apply server_counts|].
+  split; [apply Tot_run | apply conservation].
+Qed.
+
+Lemma monotone cf ops more :
+  (forall a, atot_le (at_ (run cf ops) a) (at_ (run cf (ops ++ more)) a)) /\
+  (forall c, c_phase (cl (run cf ops) c) <> PNone -> crow_le (cl (run cf ops) c) (cl (run cf (ops ++ more)) c)) /\
+  (forall s, s_seen (sv (run cf ops) s) = true -> srow_le (sv (run cf ops) s) (sv (run cf (ops ++ more)) s)).
+Proof. split; [intros a; apply at_mono | apply rows_mono]. Qed.
+
+Definition cf_w : cfg := [(1, false); (1, true)].   (* address 0: primary of pool 1, address 1: replica of pool 1 *)
+Definition panic_w : list op := [Login 1 1 true; HandleStart 1; ExitPanic 1].
+Definition stale_w : list op := [Login 1 1 true; HandleStart 1; CheckoutStart 1; CandidateFail 1 1 false].
+
+Lemma panic_leaks_row :
+  exists cf ops, known_c18 ops = true /\
+    let t := run cf ops in
+    exists c, In c (creg t) /\ c_phase (cl t c) = PGone /\
+              cl_idle (show_pools cf t 1) = 1 /\ length (clients_of t 1) = 0.
+Proof. exists cf_w, panic_w. split; [reflexivity|]. exists 1. vm_compute. repeat split. left. reflexivity. Qed.
+
+Lemma waiting_shown_idle :
+  exists cf ops, known_c18_wait cf ops = true /\ known_c18 ops = false /\
+    let t := run cf ops in
+    exists c, c_phase (cl t c) = PHandle /\ c_chk (cl t c) = true /\ c_state (cl t c) = CIdle /\
+              cl_waiting (show_pools cf t 1) = 0 /\ cl_idle (show_pools cf t 1) = 1.
+Proof. exists cf_w, stale_w. split; [reflexivity|]. split; [reflexivity|]. exists 1. vm_compute. repeat split. Qed.
